@@ -80,6 +80,10 @@ ADDS = [
     ((("n", "S2", ()),), True, [None, [b"q"], b"q"]),
     ((("p", ">U3", (2,)), ("r", "<u2", ())), True, [None, [["a", "bcd"], 9]]),
     ((("t", ">i4", (2, 2)),), False, [None, [[[1, 2], [3, 4]]], 5]),
+    # defaults of mixed kinds in one call, each exact in its own field type only (an int beyond 2^53 next to a float,
+    # a uint64 beyond 2^63 next to a negative int): the defaults must not be coerced to one common type
+    ((("k", "<i8", ()), ("f", "<f8", ())), False, [None, [2 ** 53 + 1, 0.5], [-(2 ** 62) - 1, 1e-300]]),
+    ((("u", "<u8", ()), ("m", "<i2", ()), ("g", ">f4", ())), False, [None, [2 ** 64 - 1, -3, 0.25], [2 ** 63 + 1, 7, -1.5]]),
 ]
 DIMWORD = {0: "zero-dim", 1: "one-dim", 2: "two-dim"}
 REJECT = "REJECT"
@@ -927,3 +931,41 @@ def main(ctx):
         return [r, np.array(repr(r.dtype.descr))]
 
     call_sequences(ctx, "call-sequences", seq_pool, SEQ_CALLS, seq_run, lambda: [nu], depth=ctx.pick(3, 3), nodedup_depth=3)
+
+    # ------------------------------------------------------------ long arrays (block-wise copies)
+    # the field functions on arrays whose length sits on / next to decimal and binary marks: an implementation that
+    # copies in blocks loses rows for particular lengths only
+    def one_longfields(case, rec):
+        op, n = case
+        a = np.zeros(n, dtype=[("x", ">f8"), ("v", "<i2", (2,)), ("s", "S3"), ("b", "i1")])
+        idx = np.arange(n)
+        a["x"] = idx * 0.5 + 0.25
+        a["v"] = np.stack([idx % 30000, -(idx % 29999)], axis=1)
+        a["s"] = np.array([b"a", b"bc", b"def"])[idx % 3]
+        a["b"] = (idx % 251) - 125
+        try:
+            if op == "extract":
+                out, names = nu.extract_fields(a, ["s", "x"]), ["x", "s"]
+            elif op == "remove":
+                out, names = nu.remove_fields(a, "v"), ["x", "s", "b"]
+            elif op == "reorder":
+                out, names = nu.reorder_fields(a, ["b", "s"]), ["b", "s", "x", "v"]
+            elif op == "add":
+                out, names = nu.add_fields(a, [("n", "f4")]), ["x", "v", "s", "b", "n"]
+            else:
+                b = np.zeros(n, dtype=[("q", "<i4")])
+                b["q"] = idx
+                out, names = nu.combine_fields([a, b]), ["x", "v", "s", "b", "q"]
+        except Exception as e:
+            return rec.fail(case, "%s on %d rows raised %s: %s" % (op, n, type(e).__name__, e))
+        if list(out.dtype.names) != names or out.shape != (n,):
+            return rec.fail(case, "%s on %d rows: fields %r shape %r" % (op, n, out.dtype.names, out.shape))
+        for nm in names:
+            if nm in a.dtype.names and not np.array_equal(out[nm], a[nm]):
+                bad = np.nonzero(np.atleast_1d((out[nm] != a[nm]).reshape(n, -1).any(axis=1)))[0]
+                return rec.fail(case, "%s on %d rows: field %r differs from the input in rows %r" % (op, n, nm, bad[:5].tolist()))
+        rec.ok(case, outcome="long:%s" % op, nontrivial=True)
+
+    lfunits = [(op, n) for op in ("extract", "remove", "reorder", "add", "combine")
+               for n in (4096, 65537, 99999, 100000, 100001, 200000, 200001, 1000001)]
+    ctx.lattice("long-arrays", lfunits, one_longfields, bounds=dict(lengths=[4096, 65537, 99999, 100000, 100001, 200000, 200001, 1000001]))
